@@ -29,6 +29,8 @@ for dp, dn, fn in sorted(os.walk(pkg)):
         tree = ast.parse(open(path, encoding="utf8").read())
         normalize.strip_noise(tree)
         normalize.canon_shapes(tree)
+        normalize.canon_flow(tree)
+        normalize.canon_shapes(tree)
         names = set()
         for st in tree.body:
             if isinstance(st, (ast.FunctionDef, ast.AsyncFunctionDef,
